@@ -59,6 +59,7 @@ class TypeGen:
         self.n = 0
         self.stack: List[int] = []
         self.flattened: set = set()  # classes used as a flattened field (never reused)
+        self.generic_idx: set = set()  # generic classes (never referenced without arguments)
 
     def uid(self) -> int:
         self.n += 1
@@ -317,7 +318,10 @@ class TypeGen:
                 return inner
             return {"k": "ann", "of": inner, "c": c}
         if k == "rec":
-            i = pick(d, self.stack)
+            cands = [i for i in self.stack if i not in self.generic_idx]
+            if not cands:
+                return self.leaf(hashable)
+            i = pick(d, cands)
             ref = {"k": "cls", "i": i}
             form = pick(d, ["opt", "list", "map"])
             if form == "opt":
@@ -328,6 +332,15 @@ class TypeGen:
         if k == "cls":
             done = [i for i in range(len(self.prog["classes"]))
                     if i not in self.stack and i not in self.flattened and self.prog["classes"][i] is not None]
+            if self.cfg.get("generics") and chance(d, 0.15):
+                # a generic dataclass, specialised where it is used (an existing one is reused with other arguments)
+                gens = [i for i in done if self.prog["classes"][i].get("params")]
+                i = pick(d, gens) if gens and chance(d, 0.4) else self.new_class(depth - 1, flavor="dataclass", params=["T"])
+                arg = self.leaf() if depth <= 1 or chance(d, 0.6) else self.type(depth - 1)
+                if arg["k"] == "lit" and not self.cfg["lit_in_union"]:
+                    arg = {"k": "str"}  # T also appears as Optional[T]: no Literal member of a union
+                return {"k": "cls", "i": i, "args": [arg]}
+            done = [i for i in done if not self.prog["classes"][i].get("params")]
             if done and chance(d, 0.25):
                 return {"k": "cls", "i": pick(d, done)}
             return {"k": "cls", "i": self.new_class(depth - 1)}
@@ -355,7 +368,7 @@ class TypeGen:
         n = self.uid()
         return pick(d, self.cfg["alias_pool"] or ["al{}", "Al_{}", "$al{}", "al-{}", "a_l{}", "class{}"]).format(n)
 
-    def new_class(self, depth: int, flavor: Optional[str] = None, for_flatten: bool = False) -> int:
+    def new_class(self, depth: int, flavor: Optional[str] = None, for_flatten: bool = False, params=None) -> int:
         d = self.draw
         cfg = self.cfg
         flavors = ["dataclass"] * 6
@@ -372,6 +385,8 @@ class TypeGen:
         self.prog["classes"].append(None)
         cd: Dict[str, Any] = {"name": f"C{self.uid()}", "flavor": flavor, "fields": []}
         self.stack.append(idx)
+        if params:
+            self.generic_idx.add(idx)
         if for_flatten:
             self.flattened.add(idx)
         try:
@@ -385,6 +400,16 @@ class TypeGen:
                 extra.append({"n": f["n"] + "_st", "t": {"k": "any"}, "kind": "init_false",
                               "default": {"c": ["none"]}, "from_initvar": f["n"]})
         fields += extra
+        if params:
+            cd["params"] = list(params)
+            tv = {"k": "tvar", "name": params[0]}
+            for _ in range(d(st.integers(1, 2))):
+                form = pick(d, ["T", "T", "list", "opt", "map"])
+                gf: Dict[str, Any] = {"n": self.field_name(), "t": {"T": tv, "list": {"k": "list", "sp": "List", "of": tv}, "opt": {"k": "opt", "of": tv},
+                                                                    "map": {"k": "map", "sp": "Dict", "key": {"k": "str"}, "val": tv}}[form]}
+                if form == "opt":
+                    gf["default"] = {"c": ["none"]}
+                fields.append(gf)
         if flavor == "typeddict":
             fields.sort(key=lambda f: 0 if f.get("td_required", True) else 1)  # rendered as base + total=False subclass
         if flavor in ("dataclass", "namedtuple"):
@@ -978,6 +1003,8 @@ def simplest_value(prog: dict, t: dict, stack=()) -> Any:
         return ["enum", e["name"], e["members"][0][0]]
     if k == "cls":
         cd = prog["classes"][t["i"]]
+        if t.get("args"):
+            cd = M.specialize(cd, t["args"])
         if cd["flavor"] == "typeddict":
             return ["tdict", {f["n"]: simplest_value(prog, f["t"], stack) for f in cd["fields"] if f.get("td_required", True)}]
         out = {}
@@ -1018,6 +1045,8 @@ def perturb_value(draw, prog: dict, t: dict, v, depth: int = 0):
         cd = prog["classes"][t["i"]]
         if cd is None or cd["name"] != v[1]:
             return v
+        if t.get("args"):
+            cd = M.specialize(cd, t["args"])
         out = dict(v[2])
         for f in cd["fields"]:
             n = f["n"]
